@@ -126,8 +126,12 @@ class VolFilterAlphaModel(AlphaModel):
 def mk_universe(u):
     if u[0] == 'static':
         return StaticUniverse(list(u[1]))
-    missing = pd.NaT if (len(u) > 2 and u[2] == 'nat') else None      # a missing entry date as None or as pandas' NaT
-    return DynamicUniverse(dict((a, (missing if e is None else ts(e))) for a, e in u[1]))
+    flags = u[2] if len(u) > 2 else ''
+    missing = pd.NaT if 'nat' in flags else None      # a missing entry date as None or as pandas' NaT
+    zones = ['America/New_York', 'Asia/Tokyo', 'Europe/London', 'Australia/Sydney']
+    # 'tz': the same entry instants, written in other time zones
+    when = (lambda i, e: ts(e).tz_convert(zones[i % 4])) if 'tz' in flags else (lambda i, e: ts(e))
+    return DynamicUniverse(dict((a, (missing if e is None else when(i, e))) for i, (a, e) in enumerate(u[1])))
 
 
 def write_csvs(d, assets):
@@ -164,11 +168,16 @@ def csv_handler(m, universe, keep=None, share_handler=False):
     return dh, (sources, dh)
 
 
-def run_session(c, shared_ds=None):
+LAST = {}
+
+
+def run_session(c, shared_ds=None, reuse_universe=False):
     warnings.simplefilter('ignore')
     cfg = c['cfg']
     start, end = ts(cfg['start']), ts(cfg['end'])
-    universe = mk_universe(cfg['universe'])
+    # reuse_universe: the universe OBJECT of the previous session of this process serves this one too
+    universe = LAST['universe'] if (reuse_universe and 'universe' in LAST) else mk_universe(cfg['universe'])
+    LAST['universe'] = universe
     m = c['market']
     ds = None
     try:
@@ -315,7 +324,7 @@ def handler(c):
                             src.get_ask(q, asset)
                         except Exception:
                             pass
-        b, _ = run_session(c, shared_ds=ds)
+        b, _ = run_session(c, shared_ds=ds, reuse_universe=bool(c.get('share_universe')))
         return {'first': a, 'second': b}
     if c.get('mode') == 'after_other':
         # session B on a fresh data source vs on a data source that already served a different session A
@@ -385,10 +394,19 @@ def handler(c):
         again, _ = run_session(c)
         return {'first': fresh, 'second': again, 'other_ok': other['init']}
     if c.get('mode') == 'pair':
-        a, _ = run_session(c)
+        def world(cc):
+            if not cc.get('cfg_prior'):
+                return run_session(cc)[0]
+            c_o = dict(cc)
+            c_o['cfg'] = cc['cfg_prior']
+            _, ds = run_session(c_o)
+            c_m = dict(cc)
+            c_m['share_handler'] = True
+            return run_session(c_m, shared_ds=ds)[0]
+        a = world(c)
         c2 = dict(c)
         c2['market'] = c['market2']
-        b, _ = run_session(c2)
+        b = world(c2)
         return {'a': a, 'b': b}
     out, _ = run_session(c)
     return out
